@@ -159,7 +159,16 @@ func coversIndex(fr *Frame, idx ssa.Value, blk *ssa.BasicBlock, n Aff, allowedEx
 					}
 				}
 				if !allowed {
-					return false, "loop has an exit other than its header test"
+					// an exit that can never be taken (a defensive check implied by the loop test)
+					feasible := false
+					for _, cj := range fr.edge[[2]int{b.Index, sc.Index}] {
+						if !infeasible(cj) {
+							feasible = true
+						}
+					}
+					if feasible {
+						return false, "loop has an exit other than its header test"
+					}
 				}
 			}
 		}
